@@ -11,6 +11,7 @@ SIZES = {
     "dense": (48, 480),
     "bounds": (640, 8000),
     "float": (320, 4000),
+    "relayout": (480, 6000),
 }
 
 
